@@ -17,6 +17,11 @@
 
    Actions: Update(p,c) = Remove;Add   Unset(p) / RemoveFile(p) = Remove   Reindex = Clear;AddAll in id order
             UpdateBatch = Remove all; Add all in a NONDETERMINISTIC order (C11).
+   A batch runs in two phases like compilation/analyzer/mod.rs: the declaration + doc pipelines visit the files in
+   the order of the batch (Add1), then the Lua pipeline visits them in BestOrder (a transcription of
+   FileDependencyRelation::get_best_analysis_order: required files first, ties by file id, the files LEFT OVER in a
+   require cycle in the order of the batch) and resolves the owners of `Tab.x = v` assignments (Add2: the FIRST
+   analysed non-declaration member of a key is the one the owner keeps).
    TLC enumerates all histories up to MaxSteps (the history variable is hidden from the fingerprint by VIEW, so
    two histories reaching the same abstract state are explored once) and every TRANSITION of the reduced graph
    prints the history leading to it with the expected abstract state after it (model observables, model sizes,
@@ -50,12 +55,25 @@ VARIABLES files,       \* [letter -> content name | "-"]
           hist
 
 vars == <<files, ids, nextId, db, anchor, n, hist>>
-Paths == SubSeq(<<"a", "b", "c">>, 1, NPaths)
+Paths == SubSeq(<<"a", "b", "c", "d">>, 1, NPaths)
 PathSet == {Paths[i] : i \in 1..Len(Paths)}
 None == "-"
 
 \* ------------------------------------------------------------------------------------------------
 \* the content alphabet: real Lua text and the facts it contributes
+\* a member of a require cycle: "Cy<kind>_<target>" = <contribution of the kind>, then require("<target>")
+CyKinds == {"MemInt", "MemStr", "GInt", "GStr", "FldInt", "FldStr"}
+CyTargets == {"a", "b", "c"}
+CyName(k, r) == "Cy" \o k \o "_" \o r
+CyAll == {CyName(k, r) : k \in CyKinds, r \in CyTargets}
+IsCy(c) == c \in CyAll
+CyKind(c) == CHOOSE k \in CyKinds : \E r \in CyTargets : c = CyName(k, r)
+CyTarget(c) == CHOOSE r \in CyTargets : \E k \in CyKinds : c = CyName(k, r)
+CyBody(k) == CASE k = "MemInt" -> "Tab.x = 1\n" [] k = "MemStr" -> "Tab.x = \"text\"\n"
+               [] k = "GInt" -> "GG = 1\n" [] k = "GStr" -> "GG = \"s\"\n"
+               [] k = "FldInt" -> "---@class (partial) Foo\n---@field bar integer\n"
+               [] k = "FldStr" -> "---@class (partial) Foo\n---@field bar string\n"
+
 Text(c) ==
   CASE c = "ClsDoc"   -> "---@class (partial) Foo Hello doc\n"
     [] c = "ClsDoc2"  -> "---@class (partial) Foo Other doc\n"
@@ -72,30 +90,62 @@ Text(c) ==
     [] c = "UseFoo"   -> "---@type Foo\nlocal f\nlocal v = f.bar\nlocal g = GG\n"
     [] c = "ClsSub"   -> "---@class Bar: Foo\n"
     [] c = "ReqA"     -> "local m = require(\"a\")\nreturn m\n"
+    \* generics and operators (C08 after seeded review)
+    [] c = "GenBox"   -> "---@class (partial) Box<T>\n---@field value T\n"
+    [] c = "BoxExt"   -> "---@class (partial) Box\n---@field label string\n"
+    [] c = "GenAlias" -> "---@alias Opt<T> T?\n"
+    [] c = "UseBox"   -> "---@type Box<string>\nlocal b\nlocal v = b.value\nlocal l = b.label\n---@type Opt<integer>\nlocal o\nlocal o2 = o\n"
+    [] c = "ClsOp"    -> "---@class (partial) Foo\n---@operator add(Foo): integer\n---@overload fun(x: integer): Foo\n"
+    [] c = "ClsOp2"   -> "---@class (partial) Foo\n---@operator add(Foo): string\n"
+    [] c = "UseOp"    -> "---@type Foo\nlocal f\nlocal s = f + f\nlocal k = f(1)\n"
+    \* members of require cycles with (possibly conflicting) contributions (C11 after seeded review)
+    [] c = "ClsTab"   -> "---@class Tab\nTab = {}\n"
+    [] c = "UseCy"    -> "local t = Tab.x\nlocal g = GG\n---@type Foo\nlocal f\nlocal v = f.bar\n"
+    [] IsCy(c)        -> CyBody(CyKind(c)) \o "\nlocal other = require(\"" \o CyTarget(c) \o "\")\nreturn {}\n"
     [] OTHER          -> ""
 AllContents == {"ClsDoc", "ClsDoc2", "ClsPlain", "ClsField", "GInt", "GStr", "ReqB", "Mod", "Alias", "Enum",
-                "DiagOff", "Undef", "UseFoo", "ClsSub", "ReqA"}
-TypeNames == {"Foo", "Id", "Color", "Bar"}
-GlobalNames == {"GG"}
+                "DiagOff", "Undef", "UseFoo", "ClsSub", "ReqA",
+                "GenBox", "BoxExt", "GenAlias", "UseBox", "ClsOp", "ClsOp2", "UseOp", "ClsTab", "UseCy"} \cup CyAll
+TypeNames == {"Foo", "Id", "Color", "Bar", "Box", "Opt", "Tab"}
+GlobalNames == {"GG", "Tab"}
 
-Decl(c)  == CASE c \in {"ClsDoc", "ClsDoc2", "ClsPlain", "ClsField"} -> {"Foo"}
-              [] c = "Alias" -> {"Id"} [] c = "Enum" -> {"Color"} [] c = "ClsSub" -> {"Bar"} [] OTHER -> {}
+CyFld(c) == IsCy(c) /\ CyKind(c) \in {"FldInt", "FldStr"}
+CyGlob(c) == IsCy(c) /\ CyKind(c) \in {"GInt", "GStr"}
+CyMem(c) == IsCy(c) /\ CyKind(c) \in {"MemInt", "MemStr"}
+Decl(c)  == CASE c \in {"ClsDoc", "ClsDoc2", "ClsPlain", "ClsField", "ClsOp", "ClsOp2"} -> {"Foo"}
+              [] c = "Alias" -> {"Id"} [] c = "Enum" -> {"Color"} [] c = "ClsSub" -> {"Bar"}
+              [] c \in {"GenBox", "BoxExt"} -> {"Box"} [] c = "GenAlias" -> {"Opt"} [] c = "ClsTab" -> {"Tab"}
+              [] CyFld(c) -> {"Foo"} [] OTHER -> {}
 Sup(c)   == IF c = "ClsSub" THEN {<<"Bar", "Foo">>} ELSE {}
 Desc(c)  == CASE c = "ClsDoc" -> "Hello doc" [] c = "ClsDoc2" -> "Other doc" [] OTHER -> ""
 Mem(c)   == CASE c = "ClsField" -> {<<"Foo", "bar">>}
-              [] c = "Enum" -> {<<"Color", "Red">>, <<"Color", "Green">>} [] OTHER -> {}
-NMem(c)  == CASE c \in {"ClsField", "Mod"} -> 1 [] c = "Enum" -> 2 [] OTHER -> 0   \* entries of `members`
-Glob(c)  == IF c \in {"GInt", "GStr"} THEN {"GG"} ELSE {}
-Req(c)   == CASE c = "ReqB" -> {"b"} [] c = "ReqA" -> {"a"} [] OTHER -> {}
+              [] c = "Enum" -> {<<"Color", "Red">>, <<"Color", "Green">>}
+              [] c = "GenBox" -> {<<"Box", "value">>} [] c = "BoxExt" -> {<<"Box", "label">>}
+              [] CyFld(c) -> {<<"Foo", "bar">>} [] OTHER -> {}
+\* `Tab.x = v`: a non-declaration member; its owner is resolved by the Lua pipeline (phase 2)
+LMem(c)  == IF CyMem(c) THEN {<<"Tab", "x">>} ELSE {}
+NMem(c)  == CASE c \in {"ClsField", "Mod", "GenBox", "BoxExt"} -> 1 [] c = "Enum" -> 2    \* entries of `members`
+              [] CyFld(c) \/ CyMem(c) -> 1 [] OTHER -> 0
+Glob(c)  == CASE c \in {"GInt", "GStr"} \/ CyGlob(c) -> {"GG"} [] c = "ClsTab" -> {"Tab"} [] OTHER -> {}
+Req(c)   == CASE c = "ReqB" -> {"b"} [] c = "ReqA" -> {"a"} [] IsCy(c) -> {CyTarget(c)} [] OTHER -> {}
 DOff(c)  == c = "DiagOff"
-Uses(c)  == CASE c = "UseFoo" -> {"Foo", "GG"} [] c = "ReqB" -> {"mod:b"} [] c = "ReqA" -> {"mod:a"} [] c = "ClsSub" -> {"Foo"} [] OTHER -> {}
-Partial(t) == t = "Foo"         \* Id and Color are not partial: declaring them twice is already a diagnostic
+\* generic header: the parameter names a declaration of the type in this file carries
+Gen(c)   == CASE c = "GenBox" -> {<<"Box", <<"T">>>>} [] c = "GenAlias" -> {<<"Opt", <<"T">>>>} [] OTHER -> {}
+\* operators (`---@operator`, `---@overload` on a class): <<type, meta method, result>>
+Opr(c)   == CASE c = "ClsOp" -> {<<"Foo", "add", "integer">>, <<"Foo", "call", "Foo">>}
+              [] c = "ClsOp2" -> {<<"Foo", "add", "string">>} [] OTHER -> {}
+MetaMethods == {"add", "call"}
+Uses(c)  == CASE c = "UseFoo" -> {"Foo", "GG"} [] c = "ReqB" -> {"mod:b"} [] c = "ReqA" -> {"mod:a"} [] c = "ClsSub" -> {"Foo"}
+              [] c = "UseBox" -> {"Box", "Opt"} [] c = "UseOp" -> {"Foo"} [] c = "UseCy" -> {"Tab", "GG", "Foo"}
+              [] IsCy(c) -> {"mod:" \o CyTarget(c)} \cup (IF CyMem(c) THEN {"Tab"} ELSE {}) [] OTHER -> {}
+Partial(t) == t \in {"Foo", "Box"}   \* Id, Color, Opt, Tab are not partial: declaring them twice is already a diagnostic
 
 \* ------------------------------------------------------------------------------------------------
 Live(fs) == {p \in PathSet : fs[p] # None}
 IdOf(fs, is) == {is[p] : p \in Live(fs)}
 PathOfId(is, i) == CHOOSE p \in PathSet : is[p] = i
 Max(S) == CHOOSE x \in S : \A y \in S : y <= x
+Min(S) == CHOOSE x \in S : \A y \in S : x <= y
 SetToSeq(S) == LET RECURSIVE F(_) F(T) == IF T = {} THEN <<>> ELSE LET m == CHOOSE x \in T : \A y \in T : x <= y
                                                                    IN <<m>> \o F(T \ {m}) IN F(S)
 
@@ -108,7 +158,10 @@ EmptyDb == [typeLocs |-> [t \in TypeNames |-> {}],
             globals |-> [g \in GlobalNames |-> <<>>],
             deps |-> {},
             modules |-> {},
-            doff |-> {}]
+            doff |-> {},
+            gen |-> {},                 \* <<type, params, id>>: generic header registered by file id
+            ops |-> {},                 \* <<type, meta method, result, id>>
+            lmem |-> {}]                \* <<type, key, id>>: the non-declaration member the owner keeps for the key
 
 \* module name -> the live, indexed file with that name (flat workspace: module name = path letter)
 ModTarget(d, is, r) == {i \in d.modules : \E p \in PathSet : is[p] = i /\ p = r}
@@ -116,7 +169,8 @@ ModTarget(d, is, r) == {i \in d.modules : \E p \in PathSet : is[p] = i /\ p = r}
 SortedInsert(s, i) == SetToSeq({s[k] : k \in 1..Len(s)} \cup {i})
 
 \* ---- transcribed rules ----
-Add(d, is, i, c) ==
+\* phase 1: declaration + doc pipelines
+Add1(d, is, i, c) ==
   [d EXCEPT
      !.modules = @ \cup {i},
      !.typeLocs = [t \in TypeNames |-> IF t \in Decl(c) THEN @[t] \cup {i} ELSE @[t]],
@@ -129,7 +183,18 @@ Add(d, is, i, c) ==
      !.globals = [g \in GlobalNames |-> IF g \in Glob(c) THEN SortedInsert(@[g], i) ELSE @[g]],
      \* the dependency edge is created when the requiring file is analysed and the module resolves then
      !.deps = @ \cup {<<i, j>> : j \in UNION {ModTarget([d EXCEPT !.modules = @ \cup {i}], is, r) : r \in Req(c)}},
-     !.doff = IF DOff(c) THEN @ \cup {i} ELSE @]
+     !.doff = IF DOff(c) THEN @ \cup {i} ELSE @,
+     \* preprocess_type_generic_headers -> add_generic_params: one entry per declaring file that carries a header
+     !.gen = @ \cup {<<g[1], g[2], i>> : g \in Gen(c)},
+     !.ops = @ \cup {<<o[1], o[2], o[3], i>> : o \in Opr(c)}]
+
+\* phase 2: Lua pipeline. LuaMemberIndex::add_member_to_owner for a non-declaration member: kept only when the
+\* owner has no member of that key yet (first come, first kept); the owner must be a declared type
+Add2(d, is, i, c) ==
+  [d EXCEPT !.lmem = @ \cup {<<m[1], m[2], i>> : m \in {x \in LMem(c) : d.typeLocs[x[1]] # {}
+                                                                     /\ ~\E y \in d.lmem : y[1] = x[1] /\ y[2] = x[2]}}]
+
+Add(d, is, i, c) == Add2(Add1(d, is, i, c), is, i, c)
 
 Remove(d, i) ==
   [d EXCEPT
@@ -144,14 +209,49 @@ Remove(d, i) ==
      !.globals = [g \in GlobalNames |-> SelectSeq(@[g], LAMBDA x : x # i)],
      \* LuaDependencyIndex::remove drops only the file's OWN edge set; edges pointing to it stay
      !.deps = {e \in @ : e[1] # i},
-     !.doff = @ \ {i}]
+     !.doff = @ \ {i},
+     !.gen = {g \in @ : g[3] # i},
+     !.ops = {o \in @ : o[4] # i},
+     !.lmem = {m \in @ : m[3] # i}]
 
-RECURSIVE AddSeq(_, _, _, _)
-AddSeq(d, fs, is, order) ==   \* order: sequence of ids; all modules are registered before analysis (module_analyze)
+\* FileDependencyRelation::get_best_analysis_order(input) over the edges `deps` (<<i, j>>: i requires j):
+\* Kahn's algorithm; roots and every batch of newly released files sorted by file id (no meta files here); what
+\* is never released (members of a require cycle and whatever requires them) follows IN THE ORDER OF THE INPUT
+RECURSIVE Kahn(_, _, _, _)
+Kahn(queue, indeg, res, deps) ==
+  IF queue = <<>> THEN [res |-> res, indeg |-> indeg]
+  ELSE LET x == Head(queue)
+           nb == {y \in DOMAIN indeg : <<y, x>> \in deps}
+           indeg2 == [y \in DOMAIN indeg |-> IF y \in nb THEN indeg[y] - 1 ELSE indeg[y]]
+           newz == {y \in nb : indeg2[y] = 0}
+       IN Kahn(Tail(queue) \o SetToSeq(newz), indeg2, Append(res, x), deps)
+KahnOf(deps, S) == LET indeg0 == [y \in S |-> Cardinality({x \in S : <<y, x>> \in deps})]
+                   IN Kahn(SetToSeq({y \in S : indeg0[y] = 0}), indeg0, <<>>, deps)
+BestOrder(deps, input) ==
+  IF Len(input) < 2 THEN input
+  ELSE LET k == KahnOf(deps, {input[j] : j \in 1..Len(input)})
+       IN k.res \o SelectSeq(input, LAMBDA y : k.indeg[y] > 0)
+
+RECURSIVE AddSeq1(_, _, _, _)
+AddSeq1(d, fs, is, order) ==   \* order: sequence of ids; all modules are registered before analysis (module_analyze)
   IF order = <<>> THEN d
-  ELSE AddSeq(Add(d, is, Head(order), fs[PathOfId(is, Head(order))]), fs, is, Tail(order))
+  ELSE AddSeq1(Add1(d, is, Head(order), fs[PathOfId(is, Head(order))]), fs, is, Tail(order))
+RECURSIVE AddSeq2(_, _, _, _)
+AddSeq2(d, fs, is, order) ==
+  IF order = <<>> THEN d
+  ELSE AddSeq2(Add2(d, is, Head(order), fs[PathOfId(is, Head(order))]), fs, is, Tail(order))
+\* a batch: phase 1 in the order of the batch, phase 2 in BestOrder of the batch
+AddSeq(d, fs, is, order) ==
+  LET d1 == AddSeq1(d, fs, is, order) IN AddSeq2(d1, fs, is, BestOrder(d1.deps, order))
 
 RegisterAll(d, idset) == [d EXCEPT !.modules = @ \cup idset]
+
+\* ids handed out by registering the live files in path order
+RegIds(fs) == LET RECURSIVE F(_, _) F(k, next) ==
+                    IF k > Len(Paths) THEN [p \in {} |-> 0]
+                    ELSE IF fs[Paths[k]] = None THEN (Paths[k] :> 0) @@ F(k + 1, next)
+                         ELSE (Paths[k] :> next) @@ F(k + 1, next + 1)
+              IN F(1, 1)
 
 \* ---- the declarative layer ----
 Ideal(fs, is) ==
@@ -167,17 +267,38 @@ Ideal(fs, is) ==
       globals |-> [g \in GlobalNames |-> SetToSeq({is[p] : p \in {q \in live : g \in Glob(fs[q])}})],
       deps |-> UNION {{<<is[p], is[q]>> : q \in {r \in live : r \in Req(fs[p])}} : p \in live},
       modules |-> {is[p] : p \in live},
-      doff |-> {is[p] : p \in {q \in live : DOff(fs[q])}}]
+      doff |-> {is[p] : p \in {q \in live : DOff(fs[q])}},
+      gen |-> UNION {{<<g[1], g[2], is[p]>> : g \in Gen(fs[p])} : p \in live},
+      ops |-> UNION {{<<o[1], o[2], o[3], is[p]>> : o \in Opr(fs[p])} : p \in live},
+      \* the first contributor in the dependency order of the file-id sorted batch keeps the key
+      lmem |-> LET ideps == UNION {{<<is[p], is[q]>> : q \in {r \in live : r \in Req(fs[p])}} : p \in live}
+                   ord == BestOrder(ideps, SetToSeq({is[p] : p \in live}))
+                   contrib(m) == {k \in 1..Len(ord) : m \in LMem(fs[PathOfId(is, ord[k])])}
+                   all == UNION {LMem(fs[p]) : p \in live}
+               IN {<<m[1], m[2], ord[Min(contrib(m))]>> : m \in {x \in all : declaring(x[1]) # {}}}]
 
 \* a workspace whose fresh result depends on the analysis order (C11 interaction): a type whose declaring files
 \* disagree on the description
-OrderSensitive(fs) == \E t \in TypeNames : \E p, q \in Live(fs) :
+SlotSensitive(fs) == \E t \in TypeNames : \E p, q \in Live(fs) :
                          t \in Decl(fs[p]) /\ t \in Decl(fs[q]) /\ Desc(fs[p]) # Desc(fs[q])
+\* ... or a key of a declared type assigned by two files that the dependency order never releases (members of a
+\* require cycle / files requiring them) and by no file that is released: the order of the batch decides who is first
+Stuck(fs) == LET is == RegIds(fs) live == Live(fs)
+                 ideps == UNION {{<<is[p], is[q]>> : q \in {r \in live : r \in Req(fs[p])}} : p \in live}
+                 k == KahnOf(ideps, {is[p] : p \in live})
+             IN {p \in live : k.indeg[is[p]] > 0}
+CycleSensitive(fs) == \E m \in UNION {LMem(fs[p]) : p \in Live(fs)} :
+                         /\ \E p \in Live(fs) : m[1] \in Decl(fs[p])
+                         /\ \A p \in Live(fs) \ Stuck(fs) : m \notin LMem(fs[p])
+                         /\ Cardinality({p \in Stuck(fs) : m \in LMem(fs[p])}) >= 2
+OrderSensitive(fs) == SlotSensitive(fs) \/ CycleSensitive(fs)
 
-Components == {"typeLocs", "slot", "slotOwners", "supers", "members", "nmem", "globals", "deps", "modules", "doff"}
+Components == {"typeLocs", "slot", "slotOwners", "supers", "members", "nmem", "globals", "deps", "modules", "doff",
+               "gen", "ops", "lmem"}
 Get(d, k) == CASE k = "typeLocs" -> d.typeLocs [] k = "slot" -> d.slot [] k = "slotOwners" -> d.slotOwners
                [] k = "supers" -> d.supers [] k = "members" -> d.members [] k = "nmem" -> d.nmem [] k = "globals" -> d.globals
                [] k = "deps" -> d.deps [] k = "modules" -> d.modules [] k = "doff" -> d.doff
+               [] k = "gen" -> d.gen [] k = "ops" -> d.ops [] k = "lmem" -> d.lmem
 Dev(d, fs, is) == {k \in Components : Get(d, k) # Get(Ideal(fs, is), k)}
 
 \* ---- sizes of the real maps that the model predicts exactly (names = DbIndex::verif_sizes) ----
@@ -214,7 +335,11 @@ Sizes(d, fs, is) ==
       member_members |-> Sum(d.nmem, NM),
       dependency_files |-> Cardinality({e[1] : e \in d.deps}),
       dependency_items |-> Cardinality(d.deps),
-      diag_disabled |-> Cardinality(d.doff)]
+      diag_disabled |-> Cardinality(d.doff),
+      type_generic_params |-> Cardinality({g[1] : g \in d.gen}),
+      operator_operators |-> Cardinality(d.ops),
+      operator_owners |-> Cardinality({o[1] : o \in d.ops}),
+      operator_files |-> Cardinality({o[4] : o \in d.ops})]
 
 \* ---- observables the harness compares with the real queries ----
 Obs(d, fs, is) ==
@@ -222,7 +347,15 @@ Obs(d, fs, is) ==
                                   ELSE IF d.slot[t] = "none" THEN "" ELSE d.slot[t]],
    typelocs |-> [t \in TypeNames |-> {PathOfId(is, i) : i \in d.typeLocs[t]}],
    globals |-> [g \in GlobalNames |-> [k \in 1..Len(d.globals[g]) |-> PathOfId(is, d.globals[g][k])]],
-   members |-> [t \in TypeNames |-> {<<m[2], PathOfId(is, m[3])>> : m \in {x \in d.members : x[1] = t}}],
+   members |-> [t \in TypeNames |-> {<<m[2], PathOfId(is, m[3])>> : m \in {x \in d.members \cup d.lmem : x[1] = t}}],
+   \* generic parameters of the type: the header of the declaring file with the lowest id
+   gen |-> [t \in TypeNames |-> LET gs == {g \in d.gen : g[1] = t} IN
+                                 IF gs = {} THEN <<>> ELSE (CHOOSE g \in gs : \A h \in gs : g[3] <= h[3])[2]],
+   \* operators per type and meta method in the order of the index (by file id): <<result, path>>
+   ops |-> [t \in TypeNames |-> [mm \in MetaMethods |->
+                LET os == {o \in d.ops : o[1] = t /\ o[2] = mm}
+                    idseq == SetToSeq({o[4] : o \in os})
+                IN [k \in 1..Len(idseq) |-> <<(CHOOSE o \in os : o[4] = idseq[k])[3], PathOfId(is, idseq[k])>>]]],
    supers |-> [t \in TypeNames |-> {x[2] : x \in {y \in d.supers : y[1] = t}}],
    modules |-> [r \in PathSet |-> LET tg == ModTarget(d, is, r) IN
                                    IF tg = {} THEN "<none>" ELSE PathOfId(is, CHOOSE i \in tg : TRUE)]]
@@ -237,17 +370,16 @@ Independent(fs, p, c) == \A q \in Live(fs) : (Decl(fs[q]) \cup Glob(fs[q]) \cup 
 H(op, p, c) == [op |-> op, p |-> p, c |-> c, order |-> <<>>, init |-> <<>>]
 
 WellFormed(fs) ==
+  \* a fourth file is reserved for the class the members of a require cycle contribute to
+  /\ "d" \in PathSet => fs["d"] = "ClsTab" /\ \A p \in PathSet \ {"d"} : fs[p] # "ClsTab"
+  \* a member of a require cycle requires another one (so every chain of them ends in a cycle)
+  /\ \A p \in PathSet : IsCy(fs[p]) => /\ CyTarget(fs[p]) # p /\ CyTarget(fs[p]) \in PathSet
+                                        /\ IsCy(fs[CyTarget(fs[p])])
   /\ \A t \in TypeNames : ~Partial(t) => Cardinality({p \in Live(fs) : t \in Decl(fs[p])}) <= 1
   /\ "b" \in PathSet => fs["b"] # "ReqB"             \* no self-require
   /\ fs["a"] # "ReqA"
 
 InitFiles == {fs \in [PathSet -> Contents \cup {None}] : WellFormed(fs) /\ Live(fs) # {}}
-
-RegIds(fs) == LET RECURSIVE F(_, _) F(k, next) ==
-                    IF k > Len(Paths) THEN [p \in {} |-> 0]
-                    ELSE IF fs[Paths[k]] = None THEN (Paths[k] :> 0) @@ F(k + 1, next)
-                         ELSE (Paths[k] :> next) @@ F(k + 1, next + 1)
-              IN F(1, 1)
 
 Perms(S) == LET RECURSIVE P(_) P(T) == IF T = {} THEN {<<>>} ELSE UNION {{<<x>> \o s : s \in P(T \ {x})} : x \in T}
             IN P(S)
